@@ -27,7 +27,7 @@ BIN = os.path.join(TARGET, "release", "symx")
 ENV = dict(os.environ, CARGO_NET_OFFLINE="true", CARGO_TERM_COLOR="never", CARGO_TARGET_DIR=TARGET)
 ENV.pop("RUSTFLAGS", None)
 Z3 = os.environ.get("PV_Z3", "/usr/bin/z3")
-CAP = {"quick": int(os.environ.get("PV_SCAP_QUICK", "60")), "thorough": int(os.environ.get("PV_SCAP_THOROUGH", "1800"))}
+CAP = {"quick": int(os.environ.get("PV_SCAP_QUICK", "150")), "thorough": int(os.environ.get("PV_SCAP_THOROUGH", "1800"))}
 JOBS = int(os.environ.get("PV_JOBS", "12"))
 
 
